@@ -14,4 +14,27 @@ theorem gauge_shape :
 theorem timer_shape : Facts.scopeTimerOps.take 3 = ["s.timer(name)", "s.tm.Lock()", "defer s.tm.Unlock()"] := rfl
 theorem histogram_shape : Facts.scopeHistogramOps.take 3 = ["s.histogram(name)", "s.hm.Lock()", "defer s.hm.Unlock()"] := rfl
 
+/-- the model's "deferred unlock" (`Tally.GetOrCreateLock.step`, event `allocPanic`, releases the write lock; the
+`Legacy` machine does not): in all four getters the statement directly after `s.<x>m.Lock()` is
+`defer s.<x>m.Unlock()`, and the reporter's `Allocate*` call comes after it — so the unlock runs on every way out
+of the function, a panic out of `Allocate*` included.  Fails if the `defer` is removed, replaced by explicit
+unlocks, or moved behind the `Allocate*` call. -/
+theorem unlock_is_deferred_before_allocate :
+    [Facts.scopeCounterOps, Facts.scopeGaugeOps, Facts.scopeTimerOps, Facts.scopeHistogramOps].map (·.take 4) =
+      [["s.counter(name)", "s.cm.Lock()", "defer s.cm.Unlock()",
+          "s.cachedReporter.AllocateCounter( s.fullyQualifiedName(name), s.tags, )"],
+       ["s.gauge(name)", "s.gm.Lock()", "defer s.gm.Unlock()",
+          "s.cachedReporter.AllocateGauge( s.fullyQualifiedName(name), s.tags, )"],
+       ["s.timer(name)", "s.tm.Lock()", "defer s.tm.Unlock()",
+          "s.cachedReporter.AllocateTimer( s.fullyQualifiedName(name), s.tags, )"],
+       ["s.histogram(name)", "s.hm.Lock()", "defer s.hm.Unlock()",
+          "s.cachedReporter.AllocateHistogram( s.fullyQualifiedName(name), s.tags, b, )"]] := by decide
+
+/-- … and none of the four getters has an explicit (non-deferred) `Unlock` or a second `Lock` -/
+theorem no_explicit_unlock :
+    "s.cm.Unlock()" ∉ Facts.scopeCounterOps ∧ "s.gm.Unlock()" ∉ Facts.scopeGaugeOps ∧
+    "s.tm.Unlock()" ∉ Facts.scopeTimerOps ∧ "s.hm.Unlock()" ∉ Facts.scopeHistogramOps ∧
+    Facts.scopeCounterOps.count "s.cm.Lock()" = 1 ∧ Facts.scopeGaugeOps.count "s.gm.Lock()" = 1 ∧
+    Facts.scopeTimerOps.count "s.tm.Lock()" = 1 ∧ Facts.scopeHistogramOps.count "s.hm.Lock()" = 1 := by decide
+
 end Tally.Tie.C09
